@@ -50,3 +50,15 @@ void *x__ZNSt7__cxx1112basic_stringIcSt11char_traitsIcESaIcEE9_M_appendEPKcm(voi
   *(u64 *)((u8 *)self + 8) = len; vf_str_data(self)[len] = 0;
   return self;
 }
+/* basic_string::reserve( res )  (libstdc++ 11+: never shrinks) */
+void x__ZNSt7__cxx1112basic_stringIcSt11char_traitsIcESaIcEE7reserveEm(void *self, u64 res) {
+  u64 cap = vf_str_cap(self), len = vf_str_size(self);
+  u8 *old = vf_str_data(self), *r;
+  if (res <= cap) return;
+  if (res > 0x3fffffffffffffffULL) { x__ZSt20__throw_length_errorPKc((u8 *)"basic_string::_M_create"); return; }
+  if (res < 2 * cap) { res = 2 * cap; if (res > 0x3fffffffffffffffULL) res = 0x3fffffffffffffffULL; }
+  r = malloc(res + 1); __VERIFIER_assume_nonnull(r);
+  for (u64 i = 0; i <= len; ++i) r[i] = old[i];
+  if (old != (u8 *)self + 16) free(old);
+  *(u8 **)self = r; *(u64 *)((u8 *)self + 16) = res;
+}
